@@ -11,6 +11,23 @@ import struct
 from vmc.ref import codec as R
 
 
+class CountingIO(__import__("io").BytesIO):
+    """BytesIO with a read budget: a decoder that keeps reading past it is not terminating."""
+
+    def __init__(self, data, budget=None):
+        super().__init__(data)
+        self.reads = 0
+        self.budget = budget if budget is not None else 8 * len(data) + 64
+
+    def read(self, *a):
+        self.reads += 1
+        if self.reads > self.budget:
+            from vmc.core.explore import BudgetExceeded
+
+            raise BudgetExceeded("read budget")
+        return super().read(*a)
+
+
 def _norm(label):
     return re.sub(r"-?\d+", "n", label)
 
@@ -568,6 +585,12 @@ def type_space(tier):
     tail_all = make_array(None, small("UINT"), member="rest")
     nodes.append(make_struct([("hdr", small("USINT", "hdr")), ("rest", tail_all)]))
     nodes.append(make_struct([("hdr", small("USINT", "hdr")), ("rest", nbytes_rest("rest"))]))
+    for mkst in structtag_nodes():
+        nodes.append(mkst())
+        nodes.append(make_array(3, mkst()))
+        nodes.append(make_array(None, mkst()))
+        nodes.append(make_struct([("st", mkst("st")), ("tail", small("UINT", "tail"))]))
+    nodes.append(make_array(None, nbytes_rest(None)))
     if tier == "thorough":
         # depth 3
         for shape, _ in structs[:4]:
@@ -584,7 +607,7 @@ def type_space(tier):
 def nbytes_rest(member):
     import pycomm3.cip as C
 
-    lib = C.n_bytes(-1, member)
+    lib = C.n_bytes(-1, member or "")
     vals = [b"\x00", b"abc", bytes(range(7))]
     return TNode("n_bytes(-1)", lib, ("bytes", -1), values=lambda tier: vals, invalid=lambda tier: [None, 5], consumes_all=True)
 
@@ -594,6 +617,91 @@ def R_size0(node):
         return R.size_of(node.desc) == 0
     except R.RefError:
         return False
+
+
+# ---- generated structure layouts -------------------------------------------------------------
+def structtag_layouts():
+    """(label, builder) pairs; builder() -> (lib StructTag type, reference descriptor, value list)."""
+    import pycomm3.cip as C
+    from pycomm3.custom_types import StructTag, FixedSizeString
+
+    def atom(name):
+        d = {"SINT": ("int", 1, True), "INT": ("int", 2, True), "DINT": ("int", 4, True), "LINT": ("int", 8, True),
+             "REAL": ("real", 4), "DWORD": ("bits", 4), "USINT": ("int", 1, False), "UINT": ("int", 2, False), "LREAL": ("real", 8)}[name]
+        return getattr(C, name), d
+
+    def build(size, members, bits, hidden):
+        """members: (name, libtype-or-(lib,desc), desc, offset); bits: (name, offset, bit)"""
+        lib = StructTag(*[(lt(n), off) for n, lt, d, off in members], bit_members={n: (o, b) for n, o, b in bits},
+                        private_members=set(hidden), struct_size=size)
+        desc = ("structtag", size, tuple((n, d, off) for n, lt, d, off in members), tuple(bits), frozenset(hidden))
+        return lib, desc
+
+    out = []
+
+    def L1():  # packed BOOLs spanning two hidden host bytes, then padded members
+        S, sd = atom("SINT"); I, idd = atom("INT"); D, dd = atom("DINT"); Rl, rd = atom("REAL")
+        members = [("ZZZZZZZZZZUdt0", S, sd, 0), ("ZZZZZZZZZZUdt9", S, sd, 1), ("i", I, idd, 2), ("d", D, dd, 4), ("s", S, sd, 8), ("r", Rl, rd, 12)]
+        bits = [(f"b{k}", k // 8, k % 8) for k in range(11)]
+        lib, desc = build(16, members, bits, ["ZZZZZZZZZZUdt0", "ZZZZZZZZZZUdt9"])
+        vals = []
+        for k in range(12):
+            v = {f"b{j}": (j == k) for j in range(11)}
+            v.update(i=[-32768, 32767, 0, 1, -1, 0x55AA][k % 6], d=[-(1 << 31), (1 << 31) - 1, 0, 1, -1, 0x11223344][k % 6], s=[-128, 127, 0, 1, -1, 0x5A][k % 6], r=[0.0, -1.5, 3.4028234663852886e38, 1e-45, 100.25, -0.0][k % 6])
+            vals.append(v)
+        vals.append({**{f"b{j}": True for j in range(11)}, "i": -1, "d": -1, "s": -1, "r": -1.0})
+        return lib, desc, vals
+    out.append(("packed-bools+padding", L1))
+
+    def L2():  # arrays, DWORD member (bool array), LINT at 8-alignment
+        S, sd = atom("SINT"); D, dd = atom("DINT"); W, wd = atom("DWORD"); Li, ld = atom("LINT")
+        members = [("arr", C.Array(5, S), ("array", 5, sd), 0), ("bools", C.Array(2, W), ("array", 2, wd), 8), ("big", Li, ld, 16), ("dar", C.Array(3, D), ("array", 3, dd), 24)]
+        lib, desc = build(36, members, [], [])
+        vals = []
+        for k in range(6):
+            vals.append({"arr": [(k * 31 + j) % 256 - 128 for j in range(5)], "bools": [((k + j) % 3 == 0) for j in range(64)],
+                         "big": [-(1 << 63), (1 << 63) - 1, 0, 1, -1, 0x0102030405060708][k], "dar": [k - 1, -(1 << 31) + k, (1 << 31) - 1 - k]})
+        return lib, desc, vals
+    out.append(("arrays+dword+lint", L2))
+
+    def L3():  # nested structure, array of nested structures, string member
+        S, sd = atom("SINT"); I, idd = atom("INT"); D, dd = atom("DINT")
+        inner_lib, inner_desc = build(8, [("h", S, sd, 0), ("x", I, idd, 2), ("y", D, dd, 4)], [("f", 0, 0), ("g", 0, 7)], ["h"])
+        F = FixedSizeString(6)
+        members = [("n", D, dd, 0), ("in1", inner_lib, inner_desc, 4), ("ins", C.Array(2, inner_lib), ("array", 2, inner_desc), 12),
+                   ("str", F, ("fixstr", 6, 4), 28)]
+        lib, desc = build(40, members, [], [])
+        vals = []
+        for k in range(5):
+            iv = lambda j: {"x": [0, -1, 32767, -32768, 5][(k + j) % 5], "y": [0, -1, (1 << 31) - 1, -(1 << 31), 7][(k + j) % 5], "f": bool((k + j) % 2), "g": bool((k + j) % 3 == 0)}
+            vals.append({"n": k - 2, "in1": iv(0), "ins": [iv(1), iv(2)], "str": ["", "a", "abcdef", "\xe9\xff", "xyz"][k]})
+        return lib, desc, vals
+    out.append(("nested+array-of-struct+string", L3))
+
+    def L4():  # structure size extends past the last member (trailing pad after a BOOL host)
+        S, sd = atom("SINT"); D, dd = atom("DINT")
+        members = [("d", D, dd, 0), ("ZZZZZZZZZZPad4", S, sd, 4)]
+        lib, desc = build(8, members, [("flag", 4, 0), ("other", 4, 3)], ["ZZZZZZZZZZPad4"])
+        vals = [{"d": d, "flag": f, "other": o} for d in (0, -1, 0x01020304, -(1 << 31)) for f in (False, True) for o in (False, True)]
+        return lib, desc, vals
+    out.append(("trailing-pad", L4))
+    return out
+
+
+
+
+def structtag_nodes():
+    out = []
+    for label, mk in structtag_layouts():
+        def one(member=None, mk=mk, label=label):
+            lib, desc, vals = mk()
+            if member is not None:
+                lib = lib(member)
+            return TNode(f"StructTag[{label}]", lib, desc, values=lambda tier, vals=vals: vals,
+                         invalid=lambda tier, vals=vals: [None, 5, {}, {k: v for k, v in list(vals[0].items())[1:]}],
+                         sigclass="StructTag")
+        out.append(one)
+    return out
 
 
 def blame(node, v, fails):
